@@ -18,6 +18,7 @@ func main() {
 	repo := flag.String("repo", "/repo", "repository root")
 	evidence := flag.String("evidence", "", "evidence file to write")
 	known := flag.String("known", "/verif/known_findings.json", "known findings file")
+	verbose := flag.Bool("v", false, "list every obligation")
 	flag.Parse()
 	seed := 0
 	if s := os.Getenv("VERIF_SEED"); s != "" {
@@ -47,5 +48,10 @@ func main() {
 		}()
 		rule(ctx)
 	}()
+	if *verbose {
+		for _, o := range ctx.Obs {
+			fmt.Printf("  [%s] %s @%s %s\n", o.Status, o.Key, o.Pos, o.Detail)
+		}
+	}
 	os.Exit(ctx.Finish(*evidence, *known, seed, nil))
 }
